@@ -286,6 +286,20 @@ def build_records(pa, rng, tier, rep):
                                                     cat_dissim=pa.LevenshteinCategoricalDissimilarity(names3, delta_empty=cde))
             add("comb", "lev", d, grid_pairs(names3, sample=80), de, a, b, rank=rank3,
                 meta={"kind": "Combined(levenshtein)", "component_delta_empty": cde})
+    # --- ONE categorical component object shared by two combined dissimilarities with different delta_empty: each combined
+    # dissimilarity must go on computing with the one delta_empty IT was given, whatever is built on the same component later
+    for kind in ("pre", "abs"):
+        for de1, de2 in ((2.0, 0.5), (1.0, 2.0), (0.5, 1.0)):
+            m = pre_matrix(3)
+            comp = (pa.PrecomputedCategoricalDissimilarity(SortedSet(names3), m, delta_empty=1.0) if kind == "pre"
+                    else pa.AbsoluteCategoricalDissimilarity(delta_empty=1.0))
+            first = pa.CombinedCategoricalDissimilarity(alpha=1, beta=2, delta_empty=de1, cat_dissim=comp)
+            second = pa.CombinedCategoricalDissimilarity(alpha=3, beta=1, delta_empty=de2, cat_dissim=comp)
+            M = [[rat(x) for x in row] for row in m.tolist()] if kind == "pre" else None
+            add("comb", kind, first, grid_pairs(names3, sample=60), de1, 1, 2, M=M, rank=rank3,
+                meta={"kind": f"Combined({kind}), FIRST of two built on one shared component", "delta_empty_of_the_other": de2})
+            add("comb", kind, second, grid_pairs(names3, sample=60), de2, 3, 1, M=M, rank=rank3,
+                meta={"kind": f"Combined({kind}), SECOND of two built on one shared component", "delta_empty_of_the_other": de1})
     return recs, metas
 
 
